@@ -11,7 +11,7 @@ Fixpoint ulog (n : nat) : list fk :=
 Definition visible (l : list (fk * bool)) : list fk := map fst (filter (fun e => negb (snd e)) l).
 
 Definition bridging (k : fk) : bool :=
-  match k with FShim | FTramp | FAwait _ | FSend | FSwitch => true | _ => false end.
+  match k with FShim | FTramp | FAwait _ | FSend | FSendE | FSwitch => true | _ => false end.
 
 Definition marks (l : list fk) : list (fk * bool) := map (fun k => (k, hidden k)) l.
 
@@ -97,18 +97,27 @@ Proof.
 Qed.
 
 (* ---- the alternation segments *)
-Lemma up_noswitch n : forallb (fun k => negb (is_switch k)) (up n) = true.
-Proof. induction n as [|m IH]; simpl; [reflexivity|exact IH]. Qed.
+Lemma drv_cases err m : drv err m = FSend \/ drv err m = FSendE.
+Proof. unfold drv. destruct (option_eqb Nat.eqb err (Some m)); auto. Qed.
 
-Lemma filter_up n : filter (fun k => negb (hidden k)) (up n) = ulog n.
-Proof. induction n as [|m IH]; simpl; [reflexivity|]. rewrite IH. reflexivity. Qed.
+Lemma up_noswitch err n : forallb (fun k => negb (is_switch k)) (up err n) = true.
+Proof.
+  induction n as [|m IH]; simpl; [reflexivity|].
+  destruct (drv_cases err m) as [-> | ->]; exact IH.
+Qed.
 
-Lemma filter_out n : filter (fun k => negb (hidden k)) (out n) = ulog n.
+Lemma filter_up err n : filter (fun k => negb (hidden k)) (up err n) = ulog n.
+Proof.
+  induction n as [|m IH]; simpl; [reflexivity|].
+  destruct (drv_cases err m) as [-> | ->]; simpl; rewrite IH; reflexivity.
+Qed.
+
+Lemma filter_out err n : filter (fun k => negb (hidden k)) (out err n) = ulog n.
 Proof.
   induction n as [|m IH]; [reflexivity|].
   destruct m as [|m]; [reflexivity|].
-  change (out (S (S m))) with (seg (S (S m)) ++ FSend :: out (S m)).
-  simpl. simpl in IH. rewrite IH. reflexivity.
+  change (out err (S (S m))) with (seg (S (S m)) ++ drv err (S m) :: out err (S m)).
+  simpl. simpl in IH. destruct (drv_cases err (S m)) as [-> | ->]; simpl; rewrite IH; reflexivity.
 Qed.
 
 Lemma filter_nested j : filter (fun k => negb (hidden k)) (repeat FNested j) = repeat FNested j.
@@ -121,12 +130,13 @@ Lemma last_snoc {A} (l : list A) x d : last (l ++ [x]) d = x.
 Proof. induction l as [|y l IH]; [reflexivity|]. simpl. rewrite IH. destruct (l ++ [x]) eqn:E; [destruct l; discriminate|reflexivity]. Qed.
 
 (* the innermost await_ of a task seen from outside has no next frame and hands over its coro *)
-Lemma pass_out sc m : pass sc (out (S m)) = (marks (out (S m)), Some (OCoro 0), false).
+Lemma pass_out sc err m : pass sc (out err (S m)) = (marks (out err (S m)), Some (OCoro 0), false).
 Proof.
   induction m as [|m IH]; [reflexivity|].
-  change (out (S (S m))) with (FA (S (S m)) :: FS (S (S m)) :: FAwait (S (S m)) :: FSend :: out (S m)).
+  change (out err (S (S m))) with (FA (S (S m)) :: FS (S (S m)) :: FAwait (S (S m)) :: drv err (S m) :: out err (S m)).
   apply pass_step; [reflexivity|]. apply pass_step; [reflexivity|].
-  apply pass_step; [reflexivity|]. apply pass_step; [reflexivity|]. exact IH.
+  apply pass_step; [destruct (drv_cases err (S m)) as [-> | ->]; reflexivity|].
+  apply pass_step; [destruct (drv_cases err (S m)) as [-> | ->]; reflexivity|]. exact IH.
 Qed.
 
 Lemma run_S f sc o acc :
@@ -140,23 +150,25 @@ Proof. reflexivity. Qed.
 Definition inside_stack (n j : nat) : list fk :=
   FShimCoro :: FTarget :: ulog n ++ [FA 0; FLeaf] ++ repeat FNested (S j) ++ [FProbe].
 
-Lemma greenback_inside n j :
-  exists l, gb_extract {| sc_inside := true; sc_n := n; sc_j := j |} = GOk l
+Lemma greenback_inside n j err aio :
+  exists l, gb_extract {| sc_inside := true; sc_n := n; sc_j := j; sc_err := err; sc_aio := aio |} = GOk l
             /\ visible l = inside_stack n j
             /\ (forall k h, In (k, h) l -> bridging k = true -> h = true).
 Proof.
-  set (sc := {| sc_inside := true; sc_n := n; sc_j := j |}).
+  set (sc := {| sc_inside := true; sc_n := n; sc_j := j; sc_err := err; sc_aio := aio |}).
   set (fr := unwrap sc OTask).
   assert (Hp : pass sc fr = (marks fr, None, false)).
   { apply pass_calm.
-    - unfold fr, unwrap. simpl sc_inside. cbv iota. simpl sc_n. simpl sc_j.
-      rewrite !forallb_app. rewrite up_noswitch. rewrite nested_noswitch. reflexivity.
+    - unfold fr, unwrap. simpl sc_inside. cbv iota. simpl sc_n. simpl sc_j. simpl sc_err.
+      rewrite !forallb_app. rewrite up_noswitch. rewrite nested_noswitch.
+      destruct (drv_cases err n) as [-> | ->]; reflexivity.
     - unfold fr, unwrap. simpl sc_inside. cbv iota.
       rewrite !app_assoc. rewrite last_snoc. reflexivity. }
   exists (marks fr). split; [|split].
   - unfold gb_extract. rewrite run_S. fold fr. rewrite Hp. reflexivity.
-  - rewrite visible_marks. unfold fr, unwrap. simpl sc_inside. cbv iota. simpl sc_n. simpl sc_j.
-    rewrite !filter_app. rewrite filter_up. rewrite filter_nested. reflexivity.
+  - rewrite visible_marks. unfold fr, unwrap. simpl sc_inside. cbv iota. simpl sc_n. simpl sc_j. simpl sc_err.
+    rewrite !filter_app. rewrite filter_up. rewrite filter_nested.
+    destruct (drv_cases err n) as [-> | ->]; reflexivity.
   - apply (all_bridging_hidden sc). unfold gb_extract. rewrite run_S. fold fr. rewrite Hp. reflexivity.
 Qed.
 
@@ -164,46 +176,56 @@ Qed.
 Definition outside_stack (n : nat) : list fk :=
   FShimCoro :: FTarget :: ulog n ++ [FA 0; FWait].
 
-Lemma greenback_outside n :
-  exists l, gb_extract {| sc_inside := false; sc_n := n; sc_j := 0 |} = GOk l
+Lemma pass_park sc : pass sc (park sc) = (marks (park sc), None, false).
+Proof. unfold park. destruct (sc_aio sc); reflexivity. Qed.
+
+Lemma visible_park sc : visible (marks (park sc)) = [FA 0; FWait].
+Proof. unfold park. destruct (sc_aio sc); reflexivity. Qed.
+
+Lemma greenback_outside n err aio :
+  exists l, gb_extract {| sc_inside := false; sc_n := n; sc_j := 0; sc_err := err; sc_aio := aio |} = GOk l
             /\ visible l = outside_stack n
             /\ (forall k h, In (k, h) l -> bridging k = true -> h = true).
 Proof.
-  set (sc := {| sc_inside := false; sc_n := n; sc_j := 0 |}).
+  set (sc := {| sc_inside := false; sc_n := n; sc_j := 0; sc_err := err; sc_aio := aio |}).
   destruct n as [|m].
-  - eexists. split; [vm_compute; reflexivity|]. split; [reflexivity|].
-    apply (all_bridging_hidden sc). vm_compute. reflexivity.
-  - assert (H : gb_extract sc =
-                GOk (marks [FShimCoro; FShim] ++ marks (FTramp :: FSend :: FTarget :: out (S m))
-                     ++ marks [FA 0; FWait; FWTR])).
-    { unfold gb_extract.
-      change (run 8 sc OTask []) with
-        (let '(o, c, e) := pass sc [FShimCoro; FShim] in
-         if e then GErr ([] ++ o) else match c with Some o' => run 7 sc o' ([] ++ o) | None => GOk ([] ++ o) end).
-      change (pass sc [FShimCoro; FShim]) with (marks [FShimCoro; FShim], Some OChild, false).
-      cbv iota beta.
-      change (run 7 sc OChild ([] ++ marks [FShimCoro; FShim])) with
-        (let '(o, c, e) := pass sc (FTramp :: FSend :: FTarget :: out (S m)) in
-         if e then GErr (marks [FShimCoro; FShim] ++ o)
-         else match c with Some o' => run 6 sc o' (marks [FShimCoro; FShim] ++ o)
-                         | None => GOk (marks [FShimCoro; FShim] ++ o) end).
-      assert (Hc : pass sc (FTramp :: FSend :: FTarget :: out (S m))
-                   = (marks (FTramp :: FSend :: FTarget :: out (S m)), Some (OCoro 0), false)).
-      { apply pass_step; [reflexivity|]. apply pass_step; [reflexivity|].
-        apply pass_step; [reflexivity|]. apply pass_out. }
-      rewrite Hc. cbv iota beta.
-      change (run 6 sc (OCoro 0) (marks [FShimCoro; FShim] ++ marks (FTramp :: FSend :: FTarget :: out (S m))))
-        with (GOk ((marks [FShimCoro; FShim] ++ marks (FTramp :: FSend :: FTarget :: out (S m)))
-                   ++ marks [FA 0; FWait; FWTR])).
+  - assert (H : gb_extract sc = GOk (marks [FShimCoro; FShim] ++ marks [FTramp] ++ marks (FTarget :: park sc))).
+    { unfold gb_extract. rewrite run_S.
+      change (pass sc (unwrap sc OTask)) with (marks [FShimCoro; FShim], Some OChild, false). cbv iota beta.
+      rewrite run_S.
+      change (pass sc (unwrap sc OChild)) with (marks [FTramp], Some OOrigCoro, false). cbv iota beta.
+      rewrite run_S. change (unwrap sc OOrigCoro) with (FTarget :: park sc).
+      rewrite (pass_step sc FTarget (park sc) _ _ _ eq_refl (pass_park sc)). cbv iota beta.
       rewrite <- app_assoc. reflexivity. }
     eexists. split; [exact H|]. split.
-    + rewrite !visible_app. rewrite !visible_marks.
-      change (FTramp :: FSend :: FTarget :: out (S m)) with ([FTramp; FSend; FTarget] ++ out (S m)).
-      rewrite filter_app. rewrite filter_out. reflexivity.
+    + rewrite !visible_app. change (FTarget :: park sc) with ([FTarget] ++ park sc).
+      unfold marks at 3. rewrite map_app. fold (marks [FTarget]). fold (marks (park sc)).
+      rewrite visible_app. rewrite visible_park. reflexivity.
+    + apply (all_bridging_hidden sc). exact H.
+  - assert (H : gb_extract sc =
+                GOk (marks [FShimCoro; FShim] ++ marks (FTramp :: drv err (S m) :: FTarget :: out err (S m))
+                     ++ marks (park sc))).
+    { unfold gb_extract. rewrite run_S.
+      change (pass sc (unwrap sc OTask)) with (marks [FShimCoro; FShim], Some OChild, false). cbv iota beta.
+      rewrite run_S.
+      change (unwrap sc OChild) with (FTramp :: drv err (S m) :: FTarget :: out err (S m)).
+      assert (Hc : pass sc (FTramp :: drv err (S m) :: FTarget :: out err (S m))
+                   = (marks (FTramp :: drv err (S m) :: FTarget :: out err (S m)), Some (OCoro 0), false)).
+      { apply pass_step; [destruct (drv_cases err (S m)) as [-> | ->]; reflexivity|].
+        apply pass_step; [destruct (drv_cases err (S m)) as [-> | ->]; reflexivity|].
+        apply pass_step; [reflexivity|]. apply pass_out. }
+      rewrite Hc. cbv iota beta.
+      rewrite run_S. change (unwrap sc (OCoro 0)) with (park sc). rewrite pass_park. cbv iota beta.
+      rewrite <- app_assoc. reflexivity. }
+    eexists. split; [exact H|]. split.
+    + rewrite !visible_app. rewrite visible_park. rewrite !visible_marks.
+      change (FTramp :: drv err (S m) :: FTarget :: out err (S m)) with ([FTramp; drv err (S m); FTarget] ++ out err (S m)).
+      rewrite filter_app. rewrite filter_out.
+      destruct (drv_cases err (S m)) as [-> | ->]; reflexivity.
     + apply (all_bridging_hidden sc). exact H.
 Qed.
 
 Example greenback_example :
-  visible (match gb_extract {| sc_inside := true; sc_n := 2; sc_j := 1 |} with GOk l => l | _ => [] end)
+  visible (match gb_extract {| sc_inside := true; sc_n := 2; sc_j := 1; sc_err := Some 1; sc_aio := true |} with GOk l => l | _ => [] end)
   = [FShimCoro; FTarget; FA 2; FS 2; FA 1; FS 1; FA 0; FLeaf; FNested; FNested; FProbe].
 Proof. reflexivity. Qed.
